@@ -232,3 +232,54 @@ Definition dnstxt_orig (raw : bytes) : option bytes :=
 (** netmsg[1] = rejmsg; net_writen(netmsg + !!codebeg) *)
 Definition cb_nomail_orig (lit raw : bytes) : Cres (list bytes) :=
   if nomail_codebeg raw then net_writen raw [] else net_writen lit [raw].
+
+(** ** session level: qsmtpd/syntax.c wait_for_quit() / check_max_bad_commands()
+
+    [pieces_out]: what the calls of one entry of [reply_sequences] write, one list element per
+    netnwrite(); all holes of the last call are filled with [v] (the host name).
+    [wait_for_quit helo lines badcmds]: the loop reads a line; "QUIT" (any case, nothing behind it) ->
+    smtp_quit(); otherwise check_max_bad_commands(): with more than MAXBADCMDS bad commands before
+    this one the two-call reply and the end of the connection, else the counter goes up and the fixed
+    "bad sequence" reply is written.  The input ends -> net_read() does not return (dieerror). *)
+Definition fill_all (t : list elem) (v : bytes) : list bytes :=
+  map (fun e => match e with Lit b => b | Hole _ => v end) t.
+
+Fixpoint pieces_out (ps : list piece) (v : bytes) : Cres (list bytes) :=
+  match ps with
+  | [] => Ok []
+  | PLit b :: r => do o <- pieces_out r v; Ok (b :: o)
+  | PWriten t :: r =>
+      match fill_all t v with
+      | s0 :: parts => do ls <- net_writen s0 parts; do o <- pieces_out r v; Ok (ls ++ o)
+      | [] => Crash 40
+      end
+  | PMulti t :: r => do ls <- net_write_multiline (fill_all t v); do o <- pieces_out r v; Ok (ls ++ o)
+  end.
+
+Definition sequences_of (func : bytes) : list (list piece) :=
+  map snd (filter (fun e => bytes_eqb (snd (fst e)) func) reply_sequences).
+
+Definition is_quit_line (l : bytes) : bool := bytes_eqb (map to_upper l) [81; 85; 73; 84]%N.
+
+Definition smtp_quit_out (helo : bytes) : Cres (list bytes) :=
+  match templates_of writen_templates FN_smtp_quit with
+  | [t] => pieces_out [PWriten t] helo
+  | _ => Crash 41
+  end.
+
+Fixpoint wait_for_quit (helo : bytes) (lines : list bytes) (badcmds : nat) : Cres (list bytes) :=
+  match lines with
+  | [] => Ok []
+  | l :: r =>
+      if is_quit_line l then smtp_quit_out helo
+      else if Nat.leb badcmds MAXBADCMDS then
+        match literal_model FN_wait_for_quit with
+        | [lit] => do o <- wait_for_quit helo r (S badcmds); Ok (lit :: o)
+        | _ => Crash 42
+        end
+      else
+        match sequences_of FN_check_max_bad_commands with
+        | [ps] => pieces_out ps helo
+        | _ => Crash 43
+        end
+  end.
